@@ -233,7 +233,9 @@ MakeUci ==
          np == IF d THEN Apply(pos, MoveOfUci(lg, Trim(Ev.s))) ELSE pos
          rp == Resync(np, Ev.snap)
      IN /\ Record(
-             << <<(Ev.st = "ok") = d, "C13", "make_uci applies exactly the legal moves", ToString(d)>> >>
+             << <<(Ev.st = "ok") = d, "C13", "make_uci applies exactly the legal moves", ToString(d)>>,
+                \* playing a legal move by its text is the usual way of playing it: the successor is also C02's business
+                <<~d \/ Ev.snap.fen = RenderFen(np), "C02", "successor position after playing the legal move " \o Ev.s \o " by its text", RenderFen(np)>> >>
              \o SnapChecks(np, Ev.snap, "C13"))
         /\ pos' = rp /\ lg' = IF rp = pos THEN lg ELSE Legal(rp)
         /\ stack' = <<>>
@@ -285,7 +287,14 @@ MakeMissing ==
   /\ Record(<< <<\A m \in lg : Uci(m) # Ev.uci, "C01", "legal move not offered by the generator", Ev.uci>> >>)
   /\ UNCHANGED <<pos, lg, stack, oh, ntr>>
 
-TextEvents == FindUci \/ UciToPgn \/ SanAll \/ MakeUci \/ MakeAllUci \/ UciBatch \/ Perft \/ MakeMissing
+\* end of a series of bare makes (every emitted move made once on a fresh board): every legal move was among them
+BareDone ==
+  /\ Ev.ev = "bare_done"
+  /\ Record(<< <<UciSet(lg) \subseteq ToS(Ev.made), "C02", "legal moves that the generator's move records do not spell (nothing to make)",
+                ToString(UciSet(lg) \ ToS(Ev.made))>> >>)
+  /\ UNCHANGED <<pos, lg, stack, oh, ntr>>
+
+TextEvents == BareDone \/ FindUci \/ UciToPgn \/ SanAll \/ MakeUci \/ MakeAllUci \/ UciBatch \/ Perft \/ MakeMissing
 
 Next ==
   /\ l <= Len(Rec)
